@@ -15,6 +15,8 @@ pub struct Scenario {
     /// `bus=fifo`: the SpiBus returns from `write` before the bytes are on the wire (embedded-hal 1.0
     /// allows it); they reach the chips at the next `flush`, with the pin levels of that moment
     pub fifo: bool,
+    /// `slow=<k>`: only controller k (0 = M1, 1 = S1, 2 = M2, 3 = S2) stays busy; the other BUSY pins read idle
+    pub slow: Option<usize>,
     pub ops: Vec<Vec<String>>,
     pub raw: String,
 }
@@ -66,6 +68,7 @@ pub fn parse_line(line: &str) -> Result<Scenario, String> {
         fault,
         scribble,
         fifo: kv.get("bus").copied() == Some("fifo"),
+        slow: kv.get("slow").and_then(|v| v.parse::<usize>().ok()),
         ops,
         raw: line.to_string(),
     })
